@@ -179,7 +179,7 @@ fn fits(need: &[u64; 3], free: &[u64; 3]) -> bool {
 
 /// Runs one instance through the real scheduler and judges the decision.
 pub async fn run_inst(inst: &Inst, tmp: &std::path::Path) -> Result<Judged, String> {
-    let mut sim = Sim::new(SimConfig { prefill_reserve: 16, prefill_max: 40, journal_dir: tmp.to_path_buf() });
+    let mut sim = Sim::new(SimConfig { prefill_reserve: 16, prefill_max: 40, journal_dir: tmp.to_path_buf(), real_launcher: None });
     for w in &inst.workers {
         apply(&mut sim, &Action::Connect(worker_spec(w))).await;
     }
